@@ -64,11 +64,12 @@ theorem composed_inbound_acks_justified (tr pre post : List TraceIn.Ev) (hacc : 
   Mqtt5V.Proofs.TraceIn.inbound_acks_justified hacc pre post hsplit p
 
 /-- **C04 end to end (content)**: after every prefix, a message has been handed to the application at most as often as a PUBLISH with
-exactly this QoS, packet identifier and content (`msg` = identity of topic, payload and properties) was received: nothing is delivered that
+exactly this QoS, packet identifier and content (`msg` = identity of topic, payload and properties; the front end numbers real messages from 1,
+`0` is the session_expired item of C13) was received: nothing is delivered that
 the broker did not send, nothing is altered on the way, and the client's own queues never duplicate a message -/
-theorem composed_delivered_was_received (tr pre post : List TraceIn.Ev) (hacc : TraceIn.accepts tr = true) (hsplit : tr = pre ++ post) (q p m : Nat) :
+theorem composed_delivered_was_received (tr pre post : List TraceIn.Ev) (hacc : TraceIn.accepts tr = true) (hsplit : tr = pre ++ post) (q p m : Nat) (hm : m ≠ 0) :
     TraceIn.cnt (TraceIn.isDeliverMsg q p m) pre ≤ TraceIn.cnt (TraceIn.isRxPubMsg q p m) pre :=
-  Mqtt5V.Proofs.TraceIn.delivered_was_received hacc pre post hsplit q p m
+  Mqtt5V.Proofs.TraceIn.delivered_was_received hacc pre post hsplit q p m hm
 
 /-- **C04 end to end (order)**: after every prefix, the QoS 0 messages handed to the application are, in this order, a subsequence of the
 QoS 0 messages received, and the same holds for QoS 1: within one of these QoS levels messages are never reordered (the send queue hands
